@@ -397,6 +397,33 @@ func (h *History) Step(o Op) {
 		}
 		e.Pid = pid
 		t := map[string]byte{"puback": refcodec.Puback, "pubrec": refcodec.Pubrec, "pubrel": refcodec.Pubrel, "pubcomp": refcodec.Pubcomp}[o.Op]
+		if o.Drop && !c.dropped {
+			// fault at a particular point: the packet is followed by the end of the connection, so the broker
+			// processes it but cannot write its answer
+			c.mu.Lock()
+			dead := c.done
+			c.mu.Unlock()
+			if dead {
+				fail("skip: connection already closed")
+				return
+			}
+			if err := c.write(h.encodeAck(c, t, pid, o.RC, o.Short)); err != nil {
+				fail("skip: connection already closed")
+				return
+			}
+			c.dropped = true
+			c.theirs.Drop()
+			select {
+			case <-c.doneCh:
+			case <-time.After(3 * time.Second):
+				fail("stuck: handler did not end after the connection was closed")
+			}
+			if !h.quiesce() {
+				fail("stuck: no quiescence")
+			}
+			c.acked(o.Op, pid, o.RC)
+			return
+		}
 		sendAndWait(h.encodeAck(c, t, pid, o.RC, o.Short))
 		c.acked(o.Op, pid, o.RC)
 	case "ping":
